@@ -254,15 +254,26 @@ func Trace(name string, value int) {
 	mu.Unlock()
 }
 
-// WriteFault passes (n, err) through, unless a fault is armed for this hit.
-func WriteFault(name string, n int, err error) (int, error) {
+// BeforeWrite is called with the bytes about to be written. If a fault is armed for this hit it
+// returns the prefix that the failing write still transfers (nothing, or half of the bytes for a
+// short write) and true; the caller performs the real write of that prefix and then passes the
+// flag to AfterWrite, which injects the error.
+func BeforeWrite(name string, p []byte) ([]byte, bool) {
 	acts, hitN, yield := hit(name)
 	fault, short := perform(name, acts, hitN, yield)
+	if !fault {
+		return p, false
+	}
+	if short {
+		return p[:len(p)/2], true
+	}
+	return p[:0], true
+}
+
+// AfterWrite passes (n, err) through, unless BeforeWrite decided to fault this write.
+func AfterWrite(fault bool, n int, err error) (int, error) {
 	if fault && err == nil {
-		if short {
-			return n / 2, ErrInjected
-		}
-		return 0, ErrInjected
+		return n, ErrInjected
 	}
 	return n, err
 }
